@@ -170,17 +170,68 @@ def named(b, name):
     return ls[0] if len(ls) == 1 else None
 
 
+def sum_of(e, a, b_):
+    """is e == a + b_ (either order, any association)?"""
+    try:
+        t, k = add_terms(e)
+    except Exception:
+        return False
+    return k == 0 and sorted(t, key=repr) == sorted([a, b_], key=repr)
+
+
+def or_of(p, v, acc, flag):
+    """is v (the new accumulator value on path p) == acc | flag?  `acc |= flag`, or the same written as a branch:
+    `if flag { acc = true }`"""
+    if v in (('bin', 'BitOr', acc, flag), ('bin', 'BitOr', flag, acc)):
+        return True
+    t = [e[2] for e in p.conds() if e[1] == flag and isinstance(e[2], bool)]
+    if t == [True] and v in (('c', 1, 'bool'), ('bin', 'BitOr', acc, ('c', 1, 'bool'))):
+        return True
+    if t == [False] and v == acc:
+        return True
+    return False
+
+
+def loop_roles(b, H, callee):
+    """(position local, paths): the loop-carried usize local that slices the input for the conversion call (`&bytes[total_read..]`),
+    found from the call itself, not by its name"""
+    paths = [p for p in region_paths(b, H) if feasible(p)]
+    TRl = None
+    for p in paths:
+        dc = [e for e in p.calls() if e[1] == callee]
+        if len(dc) == 1:
+            ix = index_from(dc[0][2][1])
+            if ix is not None and len(ix) == 2 and ix[1][0] == 'init':
+                TRl = ix[1][1]
+    return TRl, paths
+
+
 def loop_with_replacement(rep, f, c, fn, b, H):
     site = sp_str(b.raw['span'])
-    TRl, TEl = named(b, 'total_read'), named(b, 'total_had_errors')
-    if TRl is None or TEl is None:
-        rep.undecidable('C11-D3.loop', fn, 'accumulators not found', site, c)
+    TRl, paths = loop_roles(b, H, 'Decoder::decode_to_string')
+    if TRl is None:
+        rep.undecidable('C11-D3.loop', fn, 'the loop does not call decode_to_string on &bytes[position..] with a loop-carried position', site, c)
+        return
+    # the error flag: the bool that some iteration ORs the call's had_errors into
+    TEl = None
+    for p in paths:
+        dc = [e for e in p.calls() if e[1] == 'Decoder::decode_to_string']
+        if len(dc) != 1:
+            continue
+        res = ('call', dc[0][1], dc[0][2], dc[0][3])
+        for l, v in p.env.items():
+            if isinstance(l, int) and b.locals[l]['ty'] == 'bool' and len(b.defs.get(l, [])) >= 2 and v != ('init', l) and or_of(p, v, ('init', l), tuple_field(res, 2)) \
+                    and v != ('c', 0, 'bool'):
+                TEl = l
+    if TEl is None:
+        rep.ob('C11-D3.loop', fn, False, 'the had_errors result of the decode_to_string calls is not accumulated (OR-ed) across the iterations of the loop: '
+               'errors reported by an earlier call are lost', site, None, c)
         return
     TR, TE = ('init', TRl), ('init', TEl)
     ok = True
     why = ''
     kinds = set()
-    for p in [p for p in region_paths(b, H) if feasible(p)]:
+    for p in paths:
         if p.end[0] == 'diverge':
             continue
         dc = [e for e in p.calls() if e[1] == 'Decoder::decode_to_string']
@@ -197,19 +248,20 @@ def loop_with_replacement(rep, f, c, fn, b, H):
         arm = [e for e in p.conds() if e[1][0] == 'variant' and e[1][1] == tuple_field(res, 0)]
         if len(arm) != 1:
             continue
-        TR1 = ('bin', 'Add', TR, tuple_field(res, 1))
-        TE1 = ('bin', 'BitOr', TE, tuple_field(res, 2))
+        rd, he = tuple_field(res, 1), tuple_field(res, 2)
         rv = p.env.get(0)
         if arm[0][2] == 'InputEmpty':
             kinds.add('done')
-            if not (p.end[0] == 'return' and rv is not None and rv[0] == 'agg' and find_agg(rv[2][0], 'Cow::Owned') is not None and rv[2][1] == TE1):
+            if not (p.end[0] == 'return' and rv is not None and rv[0] == 'agg' and find_agg(rv[2][0], 'Cow::Owned') is not None and or_of(p, rv[2][1], TE, he)):
                 ok = False
                 why = 'InputEmpty must return (Cow::Owned(string), accumulated had_errors)'
         elif arm[0][2] == 'OutputFull':
             kinds.add('grow')
             rs = [e for e in p.calls() if (e[1] or '').endswith('String::reserve')]
             q = [e for e in p.calls() if e[1] == 'Decoder::max_utf8_buffer_length']
-            if not (p.end[0] == 'back' and len(rs) == 1 and len(q) == 1 and q[0][2][1] == ('bin', 'Sub', ('len', ARG), TR1) and p.env.get(TRl) == TR1 and p.env.get(TEl) == TE1):
+            qa = q[0][2][1] if len(q) == 1 else None
+            q_ok = qa is not None and qa[0] == 'bin' and qa[1] == 'Sub' and qa[2] == ('len', ARG) and sum_of(qa[3], TR, rd)
+            if not (p.end[0] == 'back' and len(rs) == 1 and q_ok and sum_of(p.env.get(TRl, TR), TR, rd) and or_of(p, p.env.get(TEl, TE), TE, he)):
                 ok = False
                 why = 'OutputFull must reserve max_utf8_buffer_length(bytes.len() - total_read) and retry with totals accumulated'
     rep.ob('C11-D3.loop', fn, ok and kinds == {'done', 'grow'}, why or 'loop cases %r' % sorted(kinds), site, {'cases': sorted(kinds)}, c)
@@ -269,14 +321,14 @@ def encode_fn(rep, f, c):
             ext = [e for e in p.calls() if (e[1] or '').endswith('::extend_from_slice')]
             ix = index_from(ext[0][2][1]) if len(ext) == 1 else None
             ok = len(ne) == 1 and strip_ref(ne[0][2][0]) == oe and v is not None and ix is not None and len(ix) == 3 and ix[1] == C(0) and ix[2] == v[2]
-            tr = named(b, 'total_read')
+            tr = loop_roles(b, heads[0], 'Encoder::encode_from_utf8_to_vec')[0] if heads else None
             ok &= tr is not None and p.env.get(tr) == v[2]
             rep.ob('C11-D3.encode-setup', fn, ok, 'conversion path does not use output_encoding.new_encoder(), copy bytes[..valid_up_to] and start at total_read = valid_up_to', at, None, c)
     rep.ob('C11-D1.cases', fn, nb >= 3, 'expected borrow paths for UTF-8 output, ISO-2022-JP and ASCII-compatible encodings (found %d)' % nb, site, {'borrow_paths': nb}, c)
     if heads and oe is not None:
-        TRl = named(b, 'total_read')
+        TRl = loop_roles(b, heads[0], 'Encoder::encode_from_utf8_to_vec')[0]
         TR = ('init', TRl)
-        ok = True
+        ok = TRl is not None
         kinds = set()
         for p in [p for p in region_paths(b, heads[0]) if feasible(p) and p.end[0] != 'diverge']:
             ec_ = [e for e in p.calls() if e[1] == 'Encoder::encode_from_utf8_to_vec']
@@ -294,7 +346,7 @@ def encode_fn(rep, f, c):
                 ok &= p.end[0] == 'return' and rv is not None and rv[0] == 'agg' and find_agg(rv[2][0], 'Cow::Owned') is not None
             elif arm and arm[0][2] == 'OutputFull':
                 kinds.add('grow')
-                ok &= p.end[0] == 'back' and p.env.get(TRl) == ('bin', 'Add', TR, tuple_field(res, 1))
+                ok &= p.end[0] == 'back' and sum_of(p.env.get(TRl, TR), TR, tuple_field(res, 1))
         rep.ob('C11-D3.encode-loop', fn, ok and kinds == {'done', 'grow'}, 'encode loop is not: encode_from_utf8_to_vec(&string[total_read..], &mut vec, true) until InputEmpty, growing on OutputFull', site, {'cases': sorted(kinds)}, c)
 
 
